@@ -606,7 +606,8 @@ func (m *Model) Apply(o *Op, h *Hints, wall int64) Resp {
 			return Resp{Code: "OK"}
 		}
 		if o.AllFalse {
-			return errResp("ERR", "neither a prefix nor delete-all")
+			// neither a prefix nor "all": nothing may be dropped; whether that is said with an error is left open
+			return Resp{Code: "ANY"}
 		}
 		for k := range t.Rows {
 			if strings.HasPrefix(k, string(o.Prefix)) {
